@@ -462,8 +462,10 @@ structure Maps where
 def buildMaps (c : Cfg) (π : Iter) : Maps :=
   ⟨mapFiles (httpPaths c) π.http, mapFiles (httpsPaths c) π.https, mapFiles (dfltPaths c) π.dflt⟩
 
-/-- the frontends: host map found -> that backend; else default-host map; else `default_backend`
-(the `--default-backend-service` or `_error404`) -/
+/-- `default_backend`: the `--default-backend-service` or `_error404` -/
+def Cfg.dfltId (c : Cfg) : Str := match c.dfltBackend with | some b => b.id | none => error404
+
+/-- the frontends: host map found -> that backend; else default-host map; else `default_backend` -/
 def routeM (c : Cfg) (m : Maps) (r : Req) : Str :=
   let hostAns := if r.tls then lookupIn m.https (httpsPaths c) r.host r.path
                  else lookupIn m.http (httpPaths c) r.host r.path
@@ -472,7 +474,7 @@ def routeM (c : Cfg) (m : Maps) (r : Req) : Str :=
   | none =>
     match lookupIn m.dflt (dfltPaths c) dfltHost r.path with
     | some b => b.id
-    | none => match c.dfltBackend with | some b => b.id | none => error404
+    | none => c.dfltId
 
 def route (c : Cfg) (π : Iter) (r : Req) : Str := routeM c (buildMaps c π) r
 
